@@ -237,6 +237,7 @@ pub struct Executor {
     precond_cache: BTreeMap<String, Result<(), String>>,
     cert_cache: BTreeMap<String, Result<(), (String, String)>>,
     inv_cache: BTreeMap<String, InputInvariants>,
+    torus_cache: BTreeMap<String, Result<(), String>>,
     pub thorough: bool,
 }
 
@@ -270,6 +271,7 @@ impl Executor {
             precond_cache: BTreeMap::new(),
             cert_cache: BTreeMap::new(),
             inv_cache: BTreeMap::new(),
+            torus_cache: BTreeMap::new(),
             thorough,
         }
     }
@@ -292,6 +294,9 @@ impl Executor {
         }
         if self.inv_cache.len() > 64 {
             self.inv_cache.clear();
+        }
+        if self.torus_cache.len() > 256 {
+            self.torus_cache.clear();
         }
     }
 
@@ -322,6 +327,15 @@ impl Executor {
                         Some(None) => return Err("cover builder output is not a covering".into()),
                         Some(Some(c)) => c.clone(),
                     }
+                }
+                Xf::SubCover(word) => {
+                    let w = rust_dsymbols::fpgroups::free_words::FreeWord::from(word.clone());
+                    let c = rust_dsymbols::covers::subgroup_cover(&s.to_partial(), &vec![w]);
+                    let cs = Sym::from_dsym(&c)?;
+                    if cs.validate().is_err() || !cs.is_connected() || dsx::covering_degree(&cs, &s).is_none() {
+                        return Err("subgroup cover builder output is not a covering".into());
+                    }
+                    cs
                 }
                 other => other.apply_simple(&s)?,
             };
@@ -589,6 +603,33 @@ impl Executor {
             Op::IsEuclidean => unreachable!(),
         };
         let inv_key = x0.to_text();
+        if spec.expect == Expect::Torus {
+            // "the input is a pseudo-toroidal cover of a known-euclidean
+            // symbol" is verified, not assumed: a branch-free manifold
+            // covering of s with H1 = Z^3 is a flat manifold with first Betti
+            // number 3, hence the 3-torus. A builder that hands over anything
+            // else yields an excluded input, never a C16 alarm.
+            if !self.torus_cache.contains_key(&inv_key) {
+                let r = (|| {
+                    dsx::manifold_check(&x0).map_err(|e| format!("not a manifold: {}", e))?;
+                    if !x0.is_connected() {
+                        return Err("not connected".to_string());
+                    }
+                    if dsx::covering_degree(&x0, &s).is_none() {
+                        return Err("not a covering of the base symbol".to_string());
+                    }
+                    match homology::h1(&x0) {
+                        Ok(h) if h == vec![0, 0, 0] => Ok(()),
+                        Ok(h) => Err(format!("H1 invariants {:?}", h)),
+                        Err(e) => Err(format!("own H1 failed: {}", e)),
+                    }
+                })();
+                self.torus_cache.insert(inv_key.clone(), r);
+            }
+            if let Err(e) = &self.torus_cache[&inv_key] {
+                return Err(format!("ptc_builder_output_not_a_torus_cover: {}", e));
+            }
+        }
         let mut x = x0.clone();
         for t in &spec.cxf {
             x = t.apply_simple(&x)?;
@@ -661,22 +702,28 @@ impl Executor {
         rec.stale_hook = ro.stale;
         rec.probes = ro.probes;
 
-        // intermediate states (diagnostic; localises, never decides)
+        // intermediate states (diagnostic; localises, never decides): every
+        // intermediate D-set must be a manifold and, where the topology of the
+        // input is pinned (torus / finite group), the sum of H1 over its
+        // components must stay what it was (sphere surgery only splits off
+        // simply connected pieces there)
         if !ro.states.is_empty() {
+            let expected_h1: Option<Vec<u64>> = match spec.expect {
+                Expect::Torus => Some(vec![0, 0, 0]),
+                Expect::SameAsInput => homology::h1(&x0).ok(),
+                Expect::Unknown => None,
+            };
             for (k, st) in ro.states.iter().enumerate() {
                 rec.states_checked += 1;
                 if st.n == 0 {
-                    if rec.first_bad_state.is_none() && spec.expect == Expect::Torus {
+                    if rec.first_bad_state.is_none() && expected_h1.as_ref().map_or(false, |h| !h.is_empty()) {
                         rec.first_bad_state = Some(format!("state {} ({}): empty", k, ro.state_tags[k]));
                     }
                     continue;
                 }
-                let bad = dsx::manifold_check(st).err().or_else(|| {
-                    if spec.expect == Expect::Torus {
-                        torus_sum_check(st).err()
-                    } else {
-                        None
-                    }
+                let bad = dsx::manifold_check(st).err().or_else(|| match &expected_h1 {
+                    Some(h) => h1_sum_check(st, h).err(),
+                    None => None,
                 });
                 if let Some(b) = bad {
                     if rec.first_bad_state.is_none() {
@@ -713,6 +760,11 @@ impl Executor {
                 "far-ops-do-not-commute"
             } else if e.contains("branch") {
                 "branched"
+            } else if e.starts_with("(0,1,3)") || e.starts_with("(0,2,3)") {
+                // the input was a manifold (precondition), so this result is
+                // not the same space any more although tiles and vertex
+                // figures are spheres
+                "non-spherical-face-or-edge-link"
             } else {
                 "non-spherical-tile-or-vertex-figure"
             };
@@ -803,9 +855,9 @@ impl Executor {
     }
 }
 
-/// For torus inputs: the sum over components of H1 must be Z^3 (sphere
-/// surgery may split off simply connected pieces).
-fn torus_sum_check(st: &Sym) -> Result<(), String> {
+/// The sum over components of H1 must equal `expected` (sphere surgery may
+/// split off simply connected pieces).
+fn h1_sum_check(st: &Sym, expected: &[u64]) -> Result<(), String> {
     let mut total: Vec<u64> = vec![];
     for orb in st.orbits(&[0, 1, 2, 3]) {
         let comp = st.subsymbol(&[0, 1, 2, 3], orb[0]);
@@ -815,10 +867,12 @@ fn torus_sum_check(st: &Sym) -> Result<(), String> {
         }
     }
     total.sort();
-    if total == vec![0, 0, 0] {
+    let mut exp = expected.to_vec();
+    exp.sort();
+    if total == exp {
         Ok(())
     } else {
-        Err(format!("sum of H1 over components is {:?}, not Z^3", total))
+        Err(format!("sum of H1 over components is {:?}, expected {:?}", total, exp))
     }
 }
 
